@@ -265,6 +265,17 @@ func run(c *fw.Ctx) *fw.Stats {
 			s.Outcome(cs.F + ":death-oom(outside claim)")
 			s.Count("oom: "+e.caseKey(cs), 1)
 		case "watchdog":
+			if (cs.F == "text" || cs.F == "nest" && !isRuntimeMember(cs.Cons)) && cs.Budget == 0 {
+				// A source text of at most 64 KiB with the default budget of 100000 steps: every
+				// member of the text and nesting families returns within seconds; one that is still running after
+				// the watchdog interval (90 s) is a computation that the step budget does not bound.
+				s.Outcome(cs.F + ":does-not-return")
+				s.Violate(e.caseKey(cs)+": does not return", fmt.Sprintf("ExecFileOptions had not returned after %v although the step budget is %d steps (parsing, resolving, compiling, executing or freezing this text takes time that no budget bounds)", watchdogNormal, stepLimit), cs)
+				if dc := e.deadClass(cs); dc != "" {
+					appendDead(dc) // deeper members of the same construct are not waited for
+				}
+				return
+			}
 			s.Count("inconclusive_timeout", 1)
 			s.Outcome(cs.F + ":watchdog(inconclusive)")
 			s.Inconcl = append(s.Inconcl, fmt.Sprintf("inconclusive_timeout: case %d %s did not return within the watchdog interval; killed, not judged", idx, e.caseKey(cs)))
@@ -290,6 +301,12 @@ func run(c *fw.Ctx) *fw.Stats {
 	st := c.Sharded(nshards, onCrash, deadFile)
 	finish(c, st, nshards)
 	return st
+}
+
+// isRuntimeMember: members of the nesting family whose work is done by built-ins over
+// very long inputs (not bounded by steps by design; see Assumptions).
+func isRuntimeMember(cons string) bool {
+	return strings.HasPrefix(cons, "json-") || strings.HasPrefix(cons, "value-nest") || strings.HasPrefix(cons, "rec-")
 }
 
 // removeStale deletes run-state files left behind by a run that was killed:
@@ -1133,19 +1150,33 @@ func replay(c *fw.Ctx, raw json.RawMessage) []fw.Viol {
 	w.calls, w.attrs = w.e.discover(w.recvs)
 	w.level = "replay"
 	w.replaying = true
-	switch cs.F {
-	case "call":
-		w.execCallCase(&cs, true)
-	case "attr":
-		w.execAttrCase(&cs)
-	case "text":
-		w.execText(&cs)
-	case "nest":
-		w.execNest(&cs)
-	case "graph":
-		w.execGraph(&cs)
-	default:
-		fw.Fatal("unknown case family %q", cs.F)
+	done := make(chan bool)
+	go func() {
+		switch cs.F {
+		case "call":
+			w.execCallCase(&cs, true)
+		case "attr":
+			w.execAttrCase(&cs)
+		case "text":
+			w.execText(&cs)
+		case "nest":
+			w.execNest(&cs)
+		case "graph":
+			w.execGraph(&cs)
+		default:
+			fw.Fatal("unknown case family %q", cs.F)
+		}
+		close(done)
+	}()
+	if (cs.F == "text" || cs.F == "nest" && !isRuntimeMember(cs.Cons)) && cs.Budget == 0 {
+		// the same criterion as in the search: see onCrash, case "watchdog"
+		select {
+		case <-done:
+		case <-time.After(watchdogNormal):
+			return []fw.Viol{{Key: w.e.caseKey(&cs) + ": does not return", What: fmt.Sprintf("had not returned after %v", watchdogNormal)}}
+		}
+	} else {
+		<-done
 	}
 	return w.st.Viols
 }
